@@ -947,6 +947,10 @@ func run20(r *mon.Run) {
 		args := []string{"-uri", uri, "-version", ver, "-status", fmt.Sprint(status), "-content", cp, "-certificate", m.certPEM, "-certUrl", "https://example.com/cert.cbor",
 			"-validityUrl", "https://example.com/resource.validity", "-privateKey", kf.path, "-miRecordSize", fmt.Sprint(rs), "-expire", "24h", "-o", out,
 			"-responseHeader", "X-Custom: value", "-responseHeader", "cache-control: max-age=100"}
+		reqHdr := ver != "1b3" && s%3 != 0
+		if reqHdr {
+			args = append(args, "-requestHeader", "Accept: */*", "-requestHeader", "x-req-flag: on", "-method", "GET")
+		}
 		explicitDate := int64(0)
 		if g.Chance(1, 3) {
 			explicitDate = 1500000000 + int64(g.Intn(1e8))
@@ -1038,6 +1042,9 @@ func run20(r *mon.Run) {
 						}
 						if ex.RespHeaders["x-custom"] != "value" {
 							bad = "-responseHeader not present in the signed headers"
+						}
+						if reqHdr && (ex.ReqHeaders["accept"] != "*/*" || ex.ReqHeaders["x-req-flag"] != "on" || ex.Method != "GET") {
+							bad = fmt.Sprintf("-requestHeader / -method not present in the signed request (method %q, headers %v)", ex.Method, ex.ReqHeaders)
 						}
 						msg := rsxg.SignedMessage(ex, leaf[:], vurl, date, expires)
 						if bad == "" && !rsxg.Verify(&m.key.PublicKey, msg, sig) {
